@@ -16,6 +16,12 @@ def _sched_objects(tsan):
         objs.append(("h_sched_tu.cpp", ["VH_DIM=%d" % d, "VH_PER=%d" % p, "VH_TSAN=%d" % tsan], "d%d_%d" % (d, p)))
     return objs
 
+def _omp_objects():
+    objs = [("h_omp_main.cpp", [], "main")]
+    for d, p in [(1, 0), (2, 0), (3, 0), (3, 1)]:
+        objs.append(("h_omp_tu.cpp", ["VH_DIM=%d" % d, "VH_PER=%d" % p], "d%d_%d" % (d, p)))
+    return objs
+
 def _index_objects():
     objs = [("h_index_main.cpp", [], "main")]
     for k, d, p in [(0,1,0),(0,2,0),(0,3,0),(0,4,0),(0,1,1),(0,2,1),(0,3,1),(0,4,1),(1,3,0)]:
@@ -51,6 +57,7 @@ BINARIES = {
     "h_mem": {"flavour": "asan", "objects": [("h_mem.cpp", [], "main")], "about": "TbfMemoryBlock layouts + byte-copied views of cell/particle groups with operators run on the views; viewer bounds hook H1"},
     "h_index": {"flavour": "asan", "objects": _index_objects(), "about": "public index API of Morton (Dim 1..4, periodic or not) and Hilbert (Dim 3) orderings against the coordinate model"},
     "h_sched": {"flavour": "asan", "objects": _sched_objects(0), "cflags": ["-fopenmp"], "ldflags": ["-lpthread"], "about": "OpenMP executors (plain and target/source) linked against the scheduler shim instead of libgomp; hostile schedules; O-dag, O-seq, P-rec; ASan+UBSan"},
+    "h_omp": {"flavour": "asan", "objects": _omp_objects(), "cflags": ["-fopenmp"], "ldflags": ["-fopenmp", "-lpthread"], "about": "OpenMP executors on the real libgomp runtime, 1..16 threads: P-rec, events == model, kernel-instance ownership, bit-identical to sequential, ASan+UBSan (no O-dag, no TSan); also cross-checks the shim's reading of the GOMP ABI"},
     "h_sched_tsan": {"flavour": "tsan", "objects": _sched_objects(1), "cflags": ["-fopenmp"], "ldflags": ["-lpthread"], "about": "same engine under ThreadSanitizer with wave policies (mutually unordered tasks released together)"},
     "h_fmm": {"flavour": "asan", "objects": _fmm_objects(), "about": "sequential executors + probe kernels on single trees, Dim 1..4, Morton and periodic Morton"},
     "h_tree": {"flavour": "asan", "objects": _tree_objects(), "about": "tree construction / structure / lookup / export / rebuild over 10 template flavours (Dim 1..4, float/double, data type != real type, 0..4 rhs, periodic ordering, target/source trees)"},
@@ -97,8 +104,8 @@ CHECKS = {
         "level": EXPL,
         "technique": "runtime monitoring of execute(flags) histories: recorder kernel (which operator, which level), byte snapshots of the tree between calls, bit-exact polynomial kernel",
         "claim": "On every explored tree: each single flag called only its operator and wrote only its output kind; every ordered partition of the flags into stages respecting the dependency order (all 2^4 chain cuts x every placement of P2P, plus the documented 3-stage split) ended bit-identical to one full run; for every upper level 0..height no operator ran above it and the result equalled the model evaluated with that level. The same three families (single flags, upper levels 0..height+1, staged histories) held on TbfOpenmpAlgorithm, TbfAlgorithmTsm and TbfOpenmpAlgorithmTsm (the OpenMP ones under shim schedules): events == model with that level, bit-identical to the sequential executor.",
-        "note": "Trusted: recorder, snapshots by (level,coord) and by original index, model. Specx/StarPU executors are covered for the default level only (C03/C09 thorough).",
-        "jobs": [{"bin": "h_fmm", "mode": "c12"}, {"bin": "h_sched", "mode": "c12"}],
+        "note": "Trusted: recorder, snapshots by (level,coord) and by original index, model. The Specx/StarPU executors (mock runtimes) run the upper-level family 0..height+1 (h_specx / h_starpu c12); flag histories are not run on them.",
+        "jobs": [{"bin": "h_fmm", "mode": "c12"}, {"bin": "h_sched", "mode": "c12"}, {"bin": "h_specx", "mode": "c12"}, {"bin": "h_starpu", "mode": "c12"}],
         "rule": "cases cycle through three history families on random trees: single flags (6 runs), staged histories (quick 24 sampled incl. the documented split; thorough all %d), upper levels 0..height (height+1 runs with P-rec + P-set model); h_sched adds six families: upper levels 0..height+1 on the OpenMP executor, on both target/source executors, staged histories on the OpenMP executor and on both target/source executors, every single flag alone on the OpenMP executor and on both target/source executors (events == model masked by the flag, only the flag's output kind changes). non-trivial = tree with >= 2 particles / far or near interactions / height >= 3 respectively; distinct = family + input signature.",
         "require_events": ["single-flag-runs", "staged-histories", "upper-level-runs"],
         "assumptions": [],
@@ -159,7 +166,7 @@ CHECKS = {
         "technique": "runtime monitoring under a controlled scheduler: OpenMP executors linked against a GOMP-ABI shim that records declared dependencies and runs every task under hostile legal schedules; offline O-dag checker (observed conflicting accesses vs declared graph), bit-exact comparison with the sequential executor, ASan (stack-use-after-return/scope) and TSan builds",
         "claim": "For every explored tree and schedule (10 policies incl. full deferral, LIFO, random, priority-inverted, waves; 1..16 threads; random worker assignment) the OpenMP executors left the tree bit-identical to the sequential one; every pair of tasks observed to touch the same cell/leaf object with a writer was ordered by the declared dependencies (so every linear extension of the observed graphs is conflict-free); no task read a dead variable (ASan) and overlapping tasks showed no data race (TSan).",
         "note": "Trusted: the shim's reading of the GOMP ABI (argument block copy, depend[] layout, priority) and of OpenMP task-dependence semantics; access sets are observed at cell/leaf granularity by the probe kernel. The Specx and StarPU executors run against API-compatible mock runtimes built on the same scheduler core (ASan builds in both tiers, TSan builds in the thorough tier); the mocks are our reading of the runtimes' documented contract, not the runtimes.",
-        "jobs": [{"bin": "h_sched", "mode": "c03"}, {"bin": "h_sched_tsan", "mode": "c03"}, {"bin": "h_specx", "mode": "c03"}, {"bin": "h_specx_tsan", "mode": "c03", "thorough_only": True},
+        "jobs": [{"bin": "h_sched", "mode": "c03"}, {"bin": "h_sched_tsan", "mode": "c03"}, {"bin": "h_omp", "mode": "c03"}, {"bin": "h_specx", "mode": "c03"}, {"bin": "h_specx_tsan", "mode": "c03", "thorough_only": True},
                  {"bin": "h_starpu", "mode": "c03"}, {"bin": "h_starpu_tsan", "mode": "c03", "thorough_only": True}],
         "rule": "case = one random tree (Dim 1..3, Morton and periodic Morton, heights up to 5..8, small block sizes so that many tasks exist) executed by TbfOpenmpAlgorithm under a set of schedules: quick = each of the 10 policies with a random thread count in {1,2,3,4,8,16} + single-thread full deferral + a 16-thread wave; thorough = every policy x every thread count; TSan build = wave policies on 2..16 threads. non-trivial = more than 3 tasks per schedule; distinct = tree signature. Evidence counts tasks, declared edges, conflicting pairs checked, distinct execution orders, max overlap.",
         "require_events": ["schedules-executed", "tasks-executed", "dag-conflicting-pairs-checked", "distinct-execution-orders"],
@@ -170,7 +177,7 @@ CHECKS = {
         "technique": "runtime monitoring: exact probe kernels (per-source multiset, polynomial) on target/source trees against the coordinate model and the direct sum; OpenMP target/source executor under the scheduler shim with O-dag/O-seq/P-rec and ASan",
         "claim": "On every explored pair of source/target sets each target accumulated exactly one contribution from each source (model count when periodic), nothing else; source multipoles and target locals equalled the model cell by cell; the OpenMP target/source executor gave bit-identical trees under all explored schedules with all observed conflicts ordered by declared dependencies.",
         "note": "Sources carry no result storage and targets no multipoles by type (NbRhs=0 / void_data), which is observed by the recorder never being handed such an object.",
-        "jobs": [{"bin": "h_fmm", "mode": "c09"}, {"bin": "h_sched", "mode": "c09"}, {"bin": "h_specx", "mode": "c09"}, {"bin": "h_starpu", "mode": "c09"}],
+        "jobs": [{"bin": "h_fmm", "mode": "c09"}, {"bin": "h_sched", "mode": "c09"}, {"bin": "h_omp", "mode": "c09"}, {"bin": "h_specx", "mode": "c09"}, {"bin": "h_starpu", "mode": "c09"}],
         "rule": "case = independent source and target sets (independent / disjoint halves / identical positions / sources in one leaf / targets in one leaf / single source or target) x distributions x geometry x block sizes x both modes; OpenMP executor under the C03 schedule sets (h_sched). non-trivial = more than 3 tasks per schedule (h_sched) / at least one far or near leaf pair (h_fmm); distinct = configuration hash.",
         "require_events": ["schedules-executed", "tasks-executed", "poly-results-checked", "tsm-pairs-checked", "tsm-cells-checked"],
         "assumptions": [],
